@@ -1,5 +1,5 @@
 """Builds /verif/build/hooked/souffle: the normal souffle link with ONE object replaced - ram/transform/Transformer.cpp
-compiled with -DSOUFFLE_VERIF_HOOKS (honours SOUFFLE_VERIF_SKIP_RAM).  Rebuilt whenever libsouffle.a is newer."""
+compiled with -DSOUFFLE_VERIF_HOOKS (honours SOUFFLE_VERIF_SKIP_RAM).  Rebuilt whenever the content of libsouffle.a or of that source file changes."""
 import os, shlex, subprocess
 from .common import *
 
@@ -17,8 +17,23 @@ def build_hooked():
     os.makedirs(HOOKED_DIR, exist_ok=True)
     lib = os.path.join(BUILD, "src", "libsouffle.a")
     with Lock("hooked"):
-        if os.path.exists(HOOKED) and os.path.getmtime(HOOKED) > os.path.getmtime(lib) and os.path.getmtime(HOOKED) > os.path.getmtime(SOUFFLE):
+        # keyed by the CONTENT of the archive and of the hook's translation unit (never by timestamps: the tree may have been
+        # restored, or be a different tree mounted at the same path)
+        import hashlib
+        hsh = hashlib.blake2b(digest_size=12)
+        for fn in (lib, os.path.join(REPO, "src", "ram", "transform", "Transformer.cpp")):
+            with open(fn, "rb") as f:
+                while True:
+                    blk = f.read(1 << 22)
+                    if not blk:
+                        break
+                    hsh.update(blk)
+        stamp = os.path.join(HOOKED_DIR, "key")
+        key = hsh.hexdigest()
+        if os.path.exists(HOOKED) and os.path.exists(stamp) and open(stamp).read().strip() == key:
             return HOOKED
+        if os.path.exists(stamp):
+            os.remove(stamp)
         cmds = ninja_commands("src/CMakeFiles/libsouffle.dir/ram/transform/Transformer.cpp.o")
         cc = [c for c in cmds if "Transformer.cpp.o" in c and " -c " in c][-1]
         obj = os.path.join(HOOKED_DIR, "Transformer.hook.o")
@@ -65,4 +80,6 @@ def build_hooked():
         r = subprocess.run(new, cwd=BUILD, stdout=subprocess.PIPE, stderr=subprocess.STDOUT, text=True)
         if r.returncode != 0:
             raise CheckError("hooked souffle does not link:\n" + r.stdout[-2000:])
+        with open(stamp, "w") as f:
+            f.write(key)
     return HOOKED
